@@ -245,26 +245,47 @@ static void predicates(int n, int pat)
 
 static void blocks()
 {
-	for(int r1 = 0; r1 <= 3; r1++)
-		for(int r2 = 0; r2 <= 3; r2++)
-			for(int c1 = 0; c1 <= 3; c1++)
-				for(int c2 = 0; c2 <= 3; c2++)
+	// every block grid with 1..3 block rows and 1..3 block columns, every block height / width in {0,1,2,3}
+	for(int R = 1; R <= 3; R++)
+		for(int C = 1; C <= 3; C++)
+		{
+			mc::Product ph(std::vector<int>(R, 4));
+			do
+			{
+				mc::Product pw(std::vector<int>(C, 4));
+				do
 				{
-					if(r1 + r2 == 0 || c1 + c2 == 0) continue;
-					std::string cfg = "blocks r=" + std::to_string(r1) + "," + std::to_string(r2) + " c=" + std::to_string(c1) + "," + std::to_string(c2);
-					auto mk = [&](int m, int n, int salt) { Matrix M(m, n, 0.0); for(int i = 0; i < m; i++) for(int j = 0; j < n; j++) M[i][j] = entry(0, i, j, salt); return M; };
-					Matrix B11 = mk(r1, c1, 1), B12 = mk(r1, c2, 2), B21 = mk(r2, c1, 3), B22 = mk(r2, c2, 4);
-					Matrix M(std::vector<std::vector<Matrix>>{{B11, B12}, {B21, B22}});
-					bool ok = M.Rows() == (unsigned)(r1 + r2) && M.Columns() == (unsigned)(c1 + c2);
-					for(int i = 0; ok && i < r1 + r2; i++)
-						for(int j = 0; j < c1 + c2; j++)
+					int tr = 0, tc = 0;
+					for(int x : ph.idx) tr += x;
+					for(int x : pw.idx) tc += x;
+					if(tr == 0 || tc == 0) continue;
+					std::string cfg = "blocks heights=";
+					for(int x : ph.idx) cfg += std::to_string(x) + ",";
+					cfg += " widths=";
+					for(int x : pw.idx) cfg += std::to_string(x) + ",";
+					std::vector<std::vector<Matrix>> B(R);
+					Rows want(tr, std::vector<double>(tc, 0.0));
+					int io = 0;
+					for(int r = 0; r < R; r++)
+					{
+						int jo = 0;
+						for(int c = 0; c < C; c++)
 						{
-							double want = i < r1 ? (j < c1 ? entry(0, i, j, 1) : entry(0, i, j - c1, 2)) : (j < c1 ? entry(0, i - r1, j, 3) : entry(0, i - r1, j - c1, 4));
-							if(!(M[i][j] == want)) ok = false;
+							Matrix M(ph.idx[r], pw.idx[c], 0.0);
+							for(int i = 0; i < ph.idx[r]; i++)
+								for(int j = 0; j < pw.idx[c]; j++) { M[i][j] = entry(0, i, j, 1 + r * 3 + c); want[io + i][jo + j] = M[i][j]; }
+							B[r].push_back(M);
+							jo += pw.idx[c];
 						}
+						io += ph.idx[r];
+					}
+					bool ok = false;
+					if(mc::library_exits([&]() { Matrix M(B); ok = eq(M, want); })) { fail("block constructor", cfg, "valid_request_terminated_process"); continue; }
 					CHECK(ok, "block constructor", "entries_at_block_offsets");
 					mc::count("block_arrangements", 1);
-				}
+				} while(pw.next());
+			} while(ph.next());
+		}
 }
 
 // ---- M4: conformability of the element-wise operations -------------------------------------------------------------
@@ -358,7 +379,7 @@ int main(int argc, char** argv)
 		for(int n = 1; n <= bound; n++)
 			for(int pat = 0; pat < NPAT; pat++)
 				if(mc::mine(unit++)) { predicates(n, pat); cases++; }
-		if(mc::shard0()) { blocks(); cases += 225; }
+		if(mc::shard0()) { blocks(); cases += mc::ctx().counters["block_arrangements"]; }
 		// Cross against the definition on every pair of 3-vectors over a small alphabet
 		if(mc::shard0())
 		{
